@@ -4,11 +4,12 @@ Decides (structural necessary conditions only):
   R-MERGE-STORED   at every call site of a table merge function, on the path where it reports a
                    change, the merge *output buffer* is what gets written to row storage, the
                    previous row is marked stale and the hash entry is re-pointed at the written row
+  R-INSERT-AFTER-PROBE a new hash entry for a key is created only after a lookup of that key missed
   R-NOMERGE-PANICS the AssertEq (:no-merge) arm calls the panic external function under cur != new
   R-OLD-NEW        "old" builds MergeFn::Old and "new" builds MergeFn::New
   R-MERGE-ARGS     every merge call passes (current row, incoming row) in that order
 """
-from ..util import (guards, params_of, result_branches, region_of_branch, region_calls, match_arms, arm_region,
+from ..util import (guards, params_of, variant_is, result_branches, region_of_branch, region_calls, match_arms, arm_region,
                     fmt_atoms)
 
 EXPLANATION = (
@@ -141,6 +142,36 @@ def check_merge_stored(chk, prog):
                 chk.judge(repoint, R, key + ":repoints-entry",
                           "hash entry re-pointed at the row written from the merge output",
                           "hash entry is not re-pointed at the row written from the merge output", c.loc, **detail)
+
+
+def check_insert_after_probe(chk, prog):
+    R = chk.rule("R-INSERT-AFTER-PROBE", "in every function body that contains a table merge call site, a new key->row hash entry is created only after a lookup of that key "
+                 "missed: through the Vacant arm of HashTable::entry, or by insert_unique control dependent on a None result of the key lookup")
+    bodies = {}
+    for f, c in merge_sites(prog):
+        bodies[f.name] = f
+    n = 0
+    for f in bodies.values():
+        for c in f.calls:
+            short = c.p.rsplit("::", 1)[-1]
+            if c.p.startswith("hashbrown::") and short == "insert" and "VacantEntry" in c.p:
+                n += 1
+                at = f.origins(c.args[0])
+                ok = any(a[0] == "call" and a[1].endswith("HashTable::entry") for a in at)
+                chk.judge(ok, R, f"{role_key(f)}:vacant-insert", "entry inserted through the Vacant arm of a probe",
+                          "VacantEntry::insert on an entry that does not come from HashTable::entry", c.loc)
+            elif c.p.startswith("hashbrown::") and short in ("insert_unique", "insert_unique_unchecked"):
+                n += 1
+                ok = False
+                for g in guards(f, c.bb):
+                    if variant_is(g, 0):
+                        at = f.origins(g["place"])
+                        if any(a[0] == "call" and (a[1].endswith("get_entry_mut") or "::find" in a[1] or a[1].endswith("HashTable::entry")) for a in at):
+                            ok = True
+                chk.judge(ok, R, f"{role_key(f)}:insert_unique", "insert_unique only after the key lookup returned None",
+                          "insert_unique without a preceding lookup miss for the key: an existing row for the same key is neither merged nor staled "
+                          "(the key ends up with several live rows)", c.loc)
+    chk.floor(R, n, 5, "hash-entry creation sites in merge-bearing insert functions")
 
 
 def check_merge_args(chk, prog):
@@ -277,6 +308,7 @@ def run(chk, prog, tier):
         "merge call sites are recognised by type: Fn*::call* with argument tuple (.., &[Value], &[Value], &mut Vec<Value>)",
     ]
     check_merge_stored(chk, prog)
+    check_insert_after_probe(chk, prog)
     check_merge_args(chk, prog)
     check_nomerge(chk, prog)
     check_old_new(chk, prog)
